@@ -279,6 +279,10 @@ fn hostile_sweep(idx: usize, e: &Entry, t: &mut Tally) {
     for whole in ["", " = 5", "[1]", "{a}", "(a b)", "(,)", "(\"x\")", "(x = )", "(=>)"] {
         srcs.push(format!("{prefix}#[{name}{whole}] {suffix}"));
     }
+    // every hostile input that has a `name = value` part also with its values forwarded in
+    // invisible groups
+    let grouped: Vec<String> = srcs.iter().filter(|s| s.contains(" = ")).map(|s| format!("{s}{}", crate::run::GROUPED)).collect();
+    srcs.extend(grouped);
     for src in srcs {
         t.evaluations += 1;
         t.hit("hostile_inputs");
